@@ -14,6 +14,7 @@ def plan(tier, seed, quick_n=220, thorough_n=3000, quick_k=15, thorough_k=48):
     n = quick_n if tier == "quick" else thorough_n
     shards = [{"kind": "layout", "sub": i, "n": n} for i in range(k)]
     shards.append({"kind": "clusters"})
+    shards.append({"kind": "insitu-exports", "n": 200 if tier == "quick" else 3000})
     return shards
 
 
@@ -153,6 +154,18 @@ def run_case(ctx, mon, labels, opts, tag, which, stale=None):
     judge_layers(ctx, recs[0], case, tag, which)
 
 
+def insitu_case(ctx, mons, spec, which):
+    from props import export_common as EC
+
+    res = EC.export_one(spec, "svg", mons, parse=False)
+    rec = res.get("compute_record")
+    if res["exc"] is not None or rec is None:
+        ctx.judge("insitu-exports", OUT_OF_SCOPE, None)
+        return
+    ctx.stratum("insitu-exports", generated=1, judged=1, held=1)
+    judge_layers(ctx, rec, {"spec": spec}, "insitu-export", which)
+
+
 def shrink_witness(ctx, mon, which, first_new, max_runs=120):
     """Delta-debugging pass over the label list of the most recent witness of this shard: drop chunks of
     labels while the same rule still fires.  Bounded by max_runs re-executions; the unshrunk case is kept."""
@@ -228,6 +241,27 @@ def worker(ctx, shard, which):
             labels = [{"pos": 500.0 + rng.choice([0, 0, 0.5, -0.5]), "w": w} for _ in range(n)]
             opts = {"algorithm": "none", "minPos": rng.choice([None, 0]), "nodeSpacing": rng.choice([0, 3])}
             run_case(ctx, mon, labels, opts, "clusters/%d" % n, which)
+    elif shard["kind"] == "insitu-exports":
+        # the layer problems that real timelines create (padded label sizes, scale-derived positions)
+        from props import export_common as EC
+        from workloads import tl as TL
+
+        class _M(object):
+            layout = mon
+
+        rng = ctx.rng("insitu-exports")
+        for _ in range(shard["n"]):
+            if ctx.should_stop():
+                break
+            spec = TL.gen_spec(rng)
+            insitu_case(ctx, _M, spec, which)
+    elif shard["kind"] == "replay-case" and "spec" in shard["case"]:
+        from props import export_common as EC
+
+        class _M(object):
+            layout = mon
+
+        insitu_case(ctx, _M, shard["case"]["spec"], which)
     elif shard["kind"] == "replay-case":
         c = shard["case"]
         run_case(ctx, mon, c["labels"], c["options"], c.get("tag", "replay"), which, stale=c.get("stale"))
